@@ -1,6 +1,7 @@
 package iso
 
 import (
+	"bytes"
 	"fmt"
 
 	"github.com/brocaar/lorawan"
@@ -242,6 +243,13 @@ var appTypes = func() []appType {
 	return out
 }()
 
+func typeNameOr(name string, v interface{}) string {
+	if name != "" {
+		return name
+	}
+	return typeName(v)
+}
+
 func typeName(v interface{}) string {
 	s := fmt.Sprintf("%T", v)
 	if len(s) > 0 && s[0] == '*' {
@@ -285,6 +293,19 @@ func reuseDecode(r *sim.Rand) {
 	p := appPkgs[at.pkg]
 	gen := func(fl int) []byte {
 		n := 48
+		// decoders that want an exact length get it (Size() of a fresh payload)
+		if at.kind == 0 && r.Intn(2) == 0 {
+			if v, ok := p.payload(at.up, at.cid); ok {
+				if sz, ok := v.(interface{ Size() int }); ok {
+					func() {
+						defer func() { recover() }()
+						if k := sz.Size(); k >= 0 && k < 200 {
+							n = k
+						}
+					}()
+				}
+			}
+		}
 		b := make([]byte, n)
 		switch fl {
 		case 0:
@@ -342,8 +363,21 @@ func reuseExperiment(name, pkg string, mk func() interface{}, up bool, b1, b2 []
 		return // the first input was not a valid message for this type
 	}
 	fresh := mk()
-	if sim.Guard("panic", func() { errF = callUnmarshal(fresh, up, append([]byte(nil), b2...)) }) {
+	in2 := append([]byte(nil), b2...)
+	if sim.Guard("panic", func() { errF = callUnmarshal(fresh, up, in2) }) {
 		return
+	}
+	if errF == nil {
+		// the decoded value does not change when the caller overwrites the
+		// buffer it was decoded from (every decodable type, not only frames)
+		s0 := sim.DeepSig(fresh)
+		if !bytes.Equal(in2, b2) {
+			simrt.Report("i4.decoder-wrote-input:"+typeNameOr(name, fresh), fmt.Sprintf("decoding %x modified the input to %x", b2, in2))
+		}
+		ownerWriteFill(in2, 0xe7)
+		if s1 := sim.DeepSig(fresh); s1 != s0 {
+			simrt.Report("alias.decode:"+typeNameOr(name, fresh), fmt.Sprintf("a %s decoded from %x changed when the caller overwrote that buffer: %s -> %s", typeNameOr(name, fresh), b2, s0, s1))
+		}
 	}
 	if sim.Guard("panic", func() { err2 = callUnmarshal(used, up, append([]byte(nil), b2...)) }) {
 		return
